@@ -127,7 +127,9 @@ sx_make_symboln(const char *s, size_t len)
     if (node->data.symbol == NULL) {
         sxoom(__FILE__, __LINE__);
     }
-    strlcpy(node->data.symbol, s, n);
+    /* s is length-delimited: strlcpy() would scan on for a terminator */
+    memcpy(node->data.symbol, s, len);
+    node->data.symbol[len] = '\0';
     return node;
 }
 
